@@ -2,6 +2,7 @@ package checks
 
 import (
 	"fmt"
+	"math"
 	"strings"
 
 	wire "github.com/jeroenrinzema/psql-wire"
@@ -87,6 +88,15 @@ func c09gen(rng *core.Rng, arrays bool) c09table {
 				row[i], forms[i] = nullForm(rng, o)
 			} else {
 				row[i] = genValue(rng, o)
+				// a handler may hand over a Go integer narrower than the column (an int16 or int32 counter
+				// in an int8 column): the number written is the number sent
+				if (o == pg.OIDInt8 || o == pg.OIDInt4) && rng.Intn(4) == 0 {
+					if o == pg.OIDInt8 && rng.Bool() {
+						row[i] = core.Pick(rng, []int32{-1, -7, math.MinInt32, int32(rng.U64()), -int32(rng.Intn(1 << 20))})
+					} else {
+						row[i] = core.Pick(rng, []int16{-1, -7, math.MinInt16, int16(rng.U64()), -int16(rng.Intn(1 << 10))})
+					}
+				}
 			}
 		}
 		t.Rows = append(t.Rows, row)
